@@ -9,6 +9,8 @@ import Mathlib.Tactic.Ring
 import Mathlib.Tactic.Linarith
 import SmoothProofs.Real
 
+set_option linter.unusedSimpArgs false
+
 namespace C20M
 open Poly Finset Scalar
 
